@@ -205,14 +205,27 @@ class TypeGen:
         return {"k": "ar", "n": self.name("A"), "it": it, "dims": dims, "ord": order}
 
     def compound(self, depth):
-        return self.any(max(depth, 1), allow=("st", "ar"))
+        """A struct/array type for a reference target or union member.  Sometimes an already generated class is
+        used again (the same class as target of several references / member of several unions, at different
+        member positions), which is how classes are shared in real type families."""
+        pool = self.__dict__.setdefault("pool", [])
+        if pool and self.rng.random() < 0.3:
+            return self.rng.choice(pool)
+        t = self.any(max(depth, 1), allow=("st", "ar"))
+        pool.append(t)
+        return t
 
     def g_ref(self, depth):
         return {"k": "ref", "to": self.compound(depth - 1)}
 
     def g_ur(self, depth):
         r = self.rng
-        return {"k": "ur", "n": self.name("U"), "m": [self.compound(depth - 1) for _ in range(r.randint(1, 3))]}
+        ms = []
+        for _ in range(r.randint(1, 3)):
+            m = self.compound(depth - 1)
+            if not any(m is x for x in ms):  # a class is a member of one union at most once
+                ms.append(m)
+        return {"k": "ur", "n": self.name("U"), "m": ms}
 
     def root(self, allow=("st", "ar", "str", "ur")):
         return self.any(self.max_depth, allow=allow)
